@@ -679,8 +679,14 @@ func runC02Case(c cfg, seed uint64, npeers int, keys map[string]struct{}) (evals
 				return d.closedSeen.Load() || d.failed.Load() || p.nread.Load() >= d.accepted.Load()+int64(len(d.openReply))
 			})
 			if !ok && !d.failed.Load() {
-				if verdictStuck(verdict) {
-					s.fail(mon, cs, d, "stall: accepted data never sent although the peer keeps reading", fmt.Sprintf("peer (%s) has read %d bytes and keeps reading; %d bytes were accepted; OutboundBuffered last seen %d; %s", p.schedule, p.nread.Load(), d.accepted.Load(), d.maxBuffered.Load(), verdict))
+				// server-side evidence that something is still unsent: the kernel has taken fewer bytes than were accepted
+				// (a starved peer goroutine that has not read its receive queue yet is not the framework's stall)
+				unsent := int64(1)
+				if fi, okf := vsys.Info(cs.fd); okf && fi.State == 1 {
+					unsent = d.accepted.Load() - fi.Wr
+				}
+				if verdictStuck(verdict) && unsent > 0 {
+					s.fail(mon, cs, d, "stall: accepted data never sent although the peer keeps reading", fmt.Sprintf("peer (%s) has read %d bytes and keeps reading; %d bytes were accepted, %d of them never handed to the kernel; OutboundBuffered last seen %d; %s", p.schedule, p.nread.Load(), d.accepted.Load(), unsent, d.maxBuffered.Load(), verdict))
 				} else {
 					res.Inconc("c02 %s: output did not drain: %s", c, verdict)
 				}
